@@ -784,9 +784,27 @@ impl Xot {
             match edge {
                 NodeEdge::Start(node) => {
                     if let Some(value) = self.element(node) {
-                        let without = if node == element { without } else { None };
-                        self.push_element_scope(&mut fullname_serializer, node, without);
-                        writable.push(fullname_serializer.element_fullname(value.name()).is_ok());
+                        let without_here = if node == element { without } else { None };
+                        self.push_element_scope(&mut fullname_serializer, node, without_here);
+                        let mut element_writable =
+                            fullname_serializer.element_fullname(value.name()).is_ok();
+                        if !element_writable {
+                            // like the serializer: below an element for
+                            // which the default namespace was undeclared, an
+                            // element that is in the default namespace of the
+                            // tree declares it again
+                            let namespace_id = self.namespace_for_name(value.name());
+                            let skip = if without == Some(self.empty_prefix()) {
+                                Some(element)
+                            } else {
+                                None
+                            };
+                            if self.default_namespace_ignoring(node, skip) == Some(namespace_id) {
+                                fullname_serializer.add_empty_prefix(namespace_id);
+                                element_writable = true;
+                            }
+                        }
+                        writable.push(element_writable);
                         for name_id in self.attributes(node).keys() {
                             writable.push(fullname_serializer.attribute_fullname(name_id).is_ok());
                         }
@@ -800,6 +818,24 @@ impl Xot {
             }
         }
         writable
+    }
+
+    // The default namespace in scope at `node` going by the declarations in
+    // the tree, not counting the default declaration of `skip` (if any).
+    fn default_namespace_ignoring(&self, node: Node, skip: Option<Node>) -> Option<NamespaceId> {
+        for ancestor in self.ancestors(node) {
+            if Some(ancestor) == skip || !self.is_element(ancestor) {
+                continue;
+            }
+            if let Some(namespace_id) = self.namespaces(ancestor).get(self.empty_prefix()) {
+                return if *namespace_id == self.no_namespace() {
+                    None
+                } else {
+                    Some(*namespace_id)
+                };
+            }
+        }
+        None
     }
 
     // A declaration is superfluous if its namespace is already known from an
